@@ -49,10 +49,16 @@ pub(crate) enum DualTcpStream {
     SecureStream(Box<TlsStream<TcpStream>>),
     #[cfg(feature = "tls_openssl")]
     SecureStream(SslStream<TcpStream>),
+    #[cfg(sirc_verif)]
+    SimStream(crate::verif_seam::SimStream),
 }
 
 impl DualTcpStream {
     pub(crate) fn is_secure(&self) -> bool {
+        #[cfg(sirc_verif)]
+        if let DualTcpStream::SimStream(ref t) = *self {
+            return t.sim_is_secure();
+        }
         !matches!(*self, DualTcpStream::PlainStream(_))
     }
 }
@@ -67,6 +73,8 @@ impl AsyncRead for DualTcpStream {
             DualTcpStream::PlainStream(ref mut t) => Pin::new(t).poll_read(cx, buf),
             #[cfg(any(feature = "tls_openssl", feature = "tls_rustls"))]
             DualTcpStream::SecureStream(ref mut t) => Pin::new(t).poll_read(cx, buf),
+            #[cfg(sirc_verif)]
+            DualTcpStream::SimStream(ref mut t) => Pin::new(t).poll_read(cx, buf),
         }
     }
 }
@@ -81,6 +89,8 @@ impl AsyncWrite for DualTcpStream {
             DualTcpStream::PlainStream(ref mut t) => Pin::new(t).poll_write(cx, buf),
             #[cfg(any(feature = "tls_openssl", feature = "tls_rustls"))]
             DualTcpStream::SecureStream(ref mut t) => Pin::new(t).poll_write(cx, buf),
+            #[cfg(sirc_verif)]
+            DualTcpStream::SimStream(ref mut t) => Pin::new(t).poll_write(cx, buf),
         }
     }
 
@@ -89,6 +99,8 @@ impl AsyncWrite for DualTcpStream {
             DualTcpStream::PlainStream(ref mut t) => Pin::new(t).poll_flush(cx),
             #[cfg(any(feature = "tls_openssl", feature = "tls_rustls"))]
             DualTcpStream::SecureStream(ref mut t) => Pin::new(t).poll_flush(cx),
+            #[cfg(sirc_verif)]
+            DualTcpStream::SimStream(ref mut t) => Pin::new(t).poll_flush(cx),
         }
     }
 
@@ -97,6 +109,8 @@ impl AsyncWrite for DualTcpStream {
             DualTcpStream::PlainStream(ref mut t) => Pin::new(t).poll_shutdown(cx),
             #[cfg(any(feature = "tls_openssl", feature = "tls_rustls"))]
             DualTcpStream::SecureStream(ref mut t) => Pin::new(t).poll_shutdown(cx),
+            #[cfg(sirc_verif)]
+            DualTcpStream::SimStream(ref mut t) => Pin::new(t).poll_shutdown(cx),
         }
     }
 }
@@ -540,6 +554,9 @@ pub(crate) async fn argon2_verify_password_async(
     password: String,
     hash_str: String,
 ) -> password_hash::errors::Result<()> {
+    #[cfg(sirc_verif)]
+    return crate::verif_seam::blocking(move || argon2_verify_password(&password, &hash_str)).await;
+    #[cfg(not(sirc_verif))]
     tokio::task::spawn_blocking(move || argon2_verify_password(&password, &hash_str))
         .await
         .unwrap()
